@@ -266,7 +266,10 @@ def drop_point(doc: Node, pos: int, slice: Slice) -> int | None:
                 wrapping = parent.content_match_at(insert_pos).find_wrapping(
                     content.first_child.type,
                 )
-                fits = wrapping is not None and parent.can_replace_with(
+                # an empty wrapping means the content fits as it is, which the
+                # first pass has already tried (upstream indexes the empty array
+                # and gets no match)
+                fits = bool(wrapping) and parent.can_replace_with(
                     insert_pos,
                     insert_pos,
                     wrapping[0],
